@@ -2,7 +2,7 @@
 from . import ingest as ig
 
 PROP = 'C11'
-QUICK = (192, 120, 60.0)
+QUICK = (320, 120, 60.0)
 THOROUGH = (1200, 200, 840.0)
 boot, execute = ig.boot, ig.execute
 shrink_plan = ig.shrink_plan
